@@ -373,11 +373,18 @@ func init() {
 		}
 		perTrigger := map[string][][]string{
 			"constant": {{"--jitter", "100"}, {"--jitter", "abc"}, {"--distribution", "regular"}, {"--distribution", "random"}, {"--distribution", ""}},
-			"staged":   {{"--jitter", "-50"}, {"--jitter", "100"}, {"--distribution", "bogus"}, {"--distribution", "random"}},
-			"ramp":     {{"--jitter", "-50"}, {"--jitter", "250"}, {"--distribution", "bogus"}, {"-r", "-100ms"}},
+			"staged": {{"--jitter", "-50"}, {"--jitter", "100"}, {"--distribution", "bogus"}, {"--distribution", "random"},
+				// a profile that dips below zero, spread over sub-ticks (interval > 100 ms so that the distribution is active)
+				{"-s", "0s:6,300ms:-6,300ms:-6", "-f", "200ms", "--distribution", "random", "--max-duration", "900ms"},
+				{"-s", "0s:6,300ms:-6,300ms:-6", "-f", "200ms", "--distribution", "regular", "--max-duration", "900ms"},
+				{"-s", "0s:6,300ms:-6,300ms:6", "-f", "200ms", "--distribution", "none", "--max-duration", "900ms"}},
+			"ramp": {{"--jitter", "-50"}, {"--jitter", "250"}, {"--distribution", "bogus"}, {"-r", "-100ms"}},
 			"gaussian": {{"--weights", "1,a"}, {"--weights", "0,0"}, {"--weights", "-1,1"}, {"--peak", "-1s"}, {"--peak", "5s"},
 				{"--standard-deviation", "-1s"}, {"--volume", "-5"}, {"--volume", "0"}, {"--jitter", "-50"}, {"--distribution", "bogus"},
-				{"--iteration-frequency", "-10ms"}, {"--iteration-frequency", "2s"}, {"--repeat", "-1s"}},
+				{"--iteration-frequency", "-10ms"}, {"--iteration-frequency", "2s"}, {"--repeat", "-1s"},
+				{"--volume", "-5000", "--iteration-frequency", "200ms", "--distribution", "random", "--max-duration", "900ms"},
+				{"--volume", "-5000", "--iteration-frequency", "200ms", "--distribution", "regular", "--max-duration", "900ms"},
+				{"--weights", "-1,3", "--iteration-frequency", "200ms", "--distribution", "random", "--max-duration", "900ms"}},
 			"users": {},
 		}
 		runLevel := [][]string{{"--max-duration", "0s"}, {"--max-duration", "-1s"}, {"--max-duration", "5ms"}, {"--max-duration", "10ms"},
@@ -386,7 +393,11 @@ func init() {
 		for _, trg := range []string{"constant", "staged", "ramp", "gaussian", "users"} {
 			for _, extra := range append(append([][]string{}, perTrigger[trg]...), runLevel...) {
 				a := append(append([]string{}, valid[trg]...), extra...)
-				if extra[0] != "--max-duration" {
+				hasDur := false
+				for _, x := range extra {
+					hasDur = hasDur || x == "--max-duration"
+				}
+				if !hasDur {
 					a = append(a, "--max-duration", "120ms")
 				}
 				clis = append(clis, append(a, "-v", "scn"))
